@@ -154,14 +154,14 @@ theorem hset_args_parse (fvs : List (Bytes × Bytes)) (hv : ∀ p ∈ fvs, adapt
       = some (fvs.foldl (fun (m : KMap Scalar) p => m.put p.1 (.str p.2)) []) :=
   hsetEntries_pairs fvs hv
 
-/-- **HSET on an existing hash stores the merge** of the old map and the new entries. The reply is what
-    the model answers: the TOTAL number of fields after the merge (class `hset-reply-counts-all-fields`),
-    not the number of fields added. -/
+/-- **HSET on an existing hash stores the merge** of the old map and the new entries, and replies the number
+    of (distinct) fields the command names — each of them is created or updated — whatever the hash held
+    before. -/
 theorem hset_existing (c : Ctx) (s : State) (k : Bytes) (args : List Bytes) (h entries : KMap Scalar) (ex : Option Int)
     (hm : c.cfg.maxMemory = 0)
     (hl : s.lookup c.db k = some ⟨.hash h, ex⟩) (hlive : (⟨.hash h, ex⟩ : Entry).expired c.now = false)
     (hlen : 2 ≤ args.length) (heven : args.length % 2 = 0) (he : hsetEntries args = some entries) :
-    ∃ s', (handleHSet c (b "hset" :: k :: args)).run c s = (s', .done (.ok (intReply (hsetMerge h entries).length))) ∧
+    ∃ s', (handleHSet c (b "hset" :: k :: args)).run c s = (s', .done (.ok (intReply entries.length))) ∧
       s'.lookup c.db k = some ⟨.hash (hsetMerge h entries), ex⟩ ∧
       ∀ k2, k ≠ k2 → s'.lookup c.db k2 = s.lookup c.db k2 := by
   refine ⟨(setValues c s [(k, .hash (hsetMerge h entries))]).1, ?_, setValues_over c s k _ _ ex hm hl,
@@ -177,10 +177,9 @@ theorem hset_contents (h entries : KMap Scalar) (g : Bytes) :
       | some v => some v
       | none => h.get g := hsetMerge_get h entries g
 
-/-- **the HSET reply, exactly** (hash with unique fields): the number of entries of the command PLUS the
-    number of old fields the command does not mention — i.e. the size of the hash after the command, which
-    equals the number of fields added only when the old hash was empty -/
-theorem hset_reply_exact (h entries : KMap Scalar) (hn : KMap.NoDup h) :
+/-- **the size of the hash after HSET** (hash with unique fields): the number of entries of the command plus
+    the number of old fields the command does not mention (the reply is the former alone: `hset_reply`) -/
+theorem hset_size_exact (h entries : KMap Scalar) (hn : KMap.NoDup h) :
     (hsetMerge h entries).length = entries.length + (h.filter fun fv => (entries.get fv.1).isNone).length :=
   hsetMerge_length h entries hn
 
@@ -190,13 +189,13 @@ theorem hset_existing_single (c : Ctx) (s : State) (k f v : Bytes) (h : KMap Sca
     (hm : c.cfg.maxMemory = 0)
     (hl : s.lookup c.db k = some ⟨.hash h, ex⟩) (hlive : (⟨.hash h, ex⟩ : Entry).expired c.now = false)
     (hv : adaptType v = .str v) :
-    ∃ s' h', (handleHSet c [b "hset", k, f, v]).run c s = (s', .done (.ok (intReply h'.length))) ∧
+    ∃ s' h', (handleHSet c [b "hset", k, f, v]).run c s = (s', .done (.ok (intReply 1))) ∧
       s'.lookup c.db k = some ⟨.hash h', ex⟩ ∧
       (∀ g, h'.get g = if f = g then some (.str v) else h.get g) ∧
       ∀ k2, k ≠ k2 → s'.lookup c.db k2 = s.lookup c.db k2 := by
   have he : hsetEntries [f, v] = some [(f, .str v)] := hsetEntries_single f v _ (by rw [hv]; rfl)
   obtain ⟨s', h1, h2, h3⟩ := hset_existing c s k [f, v] h _ ex hm hl hlive (by simp) (by simp) he
-  refine ⟨s', hsetMerge h [(f, .str v)], h1, h2, ?_, h3⟩
+  refine ⟨s', hsetMerge h [(f, .str v)], by simpa using h1, h2, ?_, h3⟩
   intro g
   rw [hsetMerge_get]
   by_cases hfg : f = g <;> simp [KMap.get, hfg]
@@ -746,9 +745,9 @@ def HOp.apply (h : KMap Scalar) : HOp → KMap Scalar
   | .hdel f fs => (hdelFold h (f :: fs)).1
   | .hincrby f _ d => h.put f (.int (curInt h f + d))
 
-/-- the reply the model gives (HSET: size of the merged map — `hset-reply-counts-all-fields`) -/
+/-- the reply the model gives (HSET: the number of fields the command names) -/
 def HOp.reply (h : KMap Scalar) : HOp → Bytes
-  | .hset _ entries => intReply (hsetMerge h entries).length
+  | .hset _ entries => intReply entries.length
   | .hsetnx _ entries => intReply (entries.filter fun fv => (h.get fv.1).isNone).length
   | .hdel f fs => intReply (hdelFold h (f :: fs)).2
   | .hincrby f _ d => intReply (curInt h f + d)
@@ -836,11 +835,15 @@ theorem reads_after_sequence (c : Ctx) (k f : Bytes) (fs : List Bytes) (ops : Li
 
 /-! ### where the full statement fails (model witnesses; each is a class of Known.lean) -/
 
-/-- `hset-reply-counts-all-fields`: HSET adding ONE new field to a one-field hash replies 2 -/
-theorem hset_reply_counts_all_fields_witness :
+/-- repaired upstream (was the witness of class `hset-reply-counts-all-fields`, where the reply was 2, the size
+    of the hash afterwards): HSET adding ONE new field to a one-field hash replies 1; HSET updating that field
+    and adding two replies 3 (every field named is created or updated) -/
+theorem hset_reply_replay :
     let c : Ctx := { db := 0, now := 1000 }
     let s : State := { dbs := [(0, ⟨[(b "k", ⟨.hash [(b "f", .str (b "v"))], none⟩)], []⟩)], mem := 0 }
-    ((handleHSet c [b "hset", b "k", b "g", b "w"]).run c s).2 = .done (.ok (b ":2\r\n")) := by decide
+    ((handleHSet c [b "hset", b "k", b "g", b "w"]).run c s).2 = .done (.ok (b ":1\r\n")) ∧
+    ((handleHSet c [b "hset", b "k", b "f", b "x", b "g", b "w", b "g", b "y", b "e", b "z"]).run c s).2
+      = .done (.ok (b ":3\r\n")) := by decide
 
 /-- `hash-numeric-text-rewritten`: HSET k f 007; HGET k f answers the integer 7, not the bytes `007` -/
 theorem numeric_text_rewritten_witness :
@@ -959,7 +962,7 @@ example := hdel_wrongtype c0 s0 (b "str") (b "f") [] (.str (b "abc")) none (by d
 example := hincrby_wrongtype c0 s0 (b "str") (b "f") (b "1") (.str (b "abc")) none 1 (by decide) (by decide) (by decide) (by decide)
 example := hset_wrongtype_replaces c0 s0 (b "str") [b "f", b "v"] [(b "f", .str (b "v"))] (.str (b "abc")) none
   (by decide) (by decide) (by decide) (by decide) (by decide) (by decide) (by decide)
-example := hset_reply_exact h0 [(b "g", .str (b "w"))] (by decide)
+example := hset_size_exact h0 [(b "g", .str (b "w"))] (by decide)
 example := hsetnx_absent_key c0 s0 (b "nokey") (b "f") (b "v") (by decide) (by decide) (by decide)
 example := fields_stay_unique h0 [(b "g", .str (b "w"))] [b "g", b "w"] [b "f"] (b "f") (.int 1) (by decide) (by decide)
 
@@ -989,33 +992,48 @@ theorem preAll_ops0 : PreAll ops0 h0 :=
     ⟨by decide, by decide, by decide⟩, trivial⟩
 example := sequence_refines c0 (b "k") ops0 s0 h0 (some 5000) (by decide) (by decide) (by decide) preAll_ops0
 example := reads_after_sequence c0 (b "k") (b "g") [b "f"] ops0 s0 h0 (some 5000) (by decide) (by decide) (by decide) preAll_ops0
-/-- what that reference run answers: HSET 4 (the total, not 1), HINCRBY -2, HDEL 1, HSETNX 0 -/
+/-- what that reference run answers: HSET 1 (the one field named), HINCRBY -2, HDEL 1, HSETNX 0 -/
 example : refOps ops0 h0 = ([(b "g", .str (b "w")), (b "n", .int (-2)), (b "x", .flt (.fin ⟨15, -1⟩))],
-    [b ":4\r\n", b ":-2\r\n", b ":1\r\n", b ":0\r\n"]) := by decide
+    [b ":1\r\n", b ":-2\r\n", b ":1\r\n", b ":0\r\n"]) := by decide
 
-/-! ### the HSET reply, under the hypothesis that excludes `hset-reply-counts-all-fields` -/
+/-! ### the HSET reply -/
 
-/-- **HSET replies the number of fields it names** when the command names every field the hash already
-    holds (then "total fields after the merge" and "distinct fields set" coincide — one of the two replies
-    the reference accepts). Partial: with an old field the command does not name, the reply over-counts
-    (`hset_reply_counts_all_fields_witness`). -/
-theorem hset_reply_partial (c : Ctx) (s : State) (k : Bytes) (args : List Bytes) (h entries : KMap Scalar) (ex : Option Int)
+/-- **HSET replies the number of fields it creates or updates, on every input**: for any argument list that
+    parses to the entries map `entries` (its fields are pairwise distinct — a field named twice counts once,
+    the last value wins) and any live hash `h` at the key, the reply is `entries.length`, every field counted
+    reads afterwards as the value given, and every other field reads as before. This is the count the API
+    documents ("the number of fields that were updated/created"), one of the two replies the reference
+    accepts; what the hash held before does not enter the count. -/
+theorem hset_reply (c : Ctx) (s : State) (k : Bytes) (args : List Bytes) (h entries : KMap Scalar) (ex : Option Int)
     (hm : c.cfg.maxMemory = 0)
     (hl : s.lookup c.db k = some ⟨.hash h, ex⟩) (hlive : (⟨.hash h, ex⟩ : Entry).expired c.now = false)
-    (hlen : 2 ≤ args.length) (heven : args.length % 2 = 0) (he : hsetEntries args = some entries)
-    (hn : KMap.NoDup h) (hall : ∀ fv ∈ h, (entries.get fv.1).isSome = true) :
-    ((handleHSet c (b "hset" :: k :: args)).run c s).2 = .done (.ok (intReply entries.length)) := by
-  obtain ⟨s', h1, _, _⟩ := hset_existing c s k args h entries ex hm hl hlive hlen heven he
-  rw [h1, hset_reply_exact h entries hn]
-  have : (h.filter fun fv => (entries.get fv.1).isNone) = [] := by
-    rw [List.filter_eq_nil_iff]
-    intro fv hfv
-    have := hall fv hfv
-    cases hg : entries.get fv.1 <;> simp_all
-  rw [this]; simp
+    (hlen : 2 ≤ args.length) (heven : args.length % 2 = 0) (he : hsetEntries args = some entries) :
+    ∃ s' h', (handleHSet c (b "hset" :: k :: args)).run c s = (s', .done (.ok (intReply entries.length))) ∧
+      s'.lookup c.db k = some ⟨.hash h', ex⟩ ∧ KMap.NoDup entries ∧
+      (∀ g v, entries.get g = some v → h'.get g = some v) ∧
+      (∀ g, entries.get g = none → h'.get g = h.get g) := by
+  obtain ⟨s', h1, h2, _⟩ := hset_existing c s k args h entries ex hm hl hlive hlen heven he
+  refine ⟨s', hsetMerge h entries, h1, h2, hsetEntries_NoDup args entries he, ?_, ?_⟩
+  · intro g v hg; rw [hsetMerge_get, hg]
+  · intro g hg; rw [hsetMerge_get, hg]
 
-example := hset_reply_partial c0 s0 (b "k") [b "f", b "1", b "n", b "2", b "x", b "3", b "g", b "4"] h0
-  [(b "f", .int 1), (b "n", .int 2), (b "x", .int 3), (b "g", .int 4)] (some 5000)
-  (by decide) (by decide) (by decide) (by decide) (by decide) (by decide) (by decide) (by decide)
+/-- the same reply whether or not the key existed: on an absent key the count is again `entries.length` -/
+theorem hset_reply_any_key (c : Ctx) (s : State) (k : Bytes) (args : List Bytes) (h entries : KMap Scalar) (ex : Option Int)
+    (hm : c.cfg.maxMemory = 0)
+    (hl : s.lookup c.db k = none ∨
+      (s.lookup c.db k = some ⟨.hash h, ex⟩ ∧ (⟨.hash h, ex⟩ : Entry).expired c.now = false))
+    (hlen : 2 ≤ args.length) (heven : args.length % 2 = 0) (he : hsetEntries args = some entries) :
+    ((handleHSet c (b "hset" :: k :: args)).run c s).2 = .done (.ok (intReply entries.length)) := by
+  rcases hl with hl | ⟨hl, hlive⟩
+  · obtain ⟨s', h1, _, _⟩ := hset_absent c s k args entries hm hl hlen heven he
+    rw [h1]
+  · obtain ⟨s', h1, _, _⟩ := hset_existing c s k args h entries ex hm hl hlive hlen heven he
+    rw [h1]
+
+example := hset_reply c0 s0 (b "k") [b "f", b "1", b "g", b "4", b "g", b "5"] h0
+  [(b "f", .int 1), (b "g", .int 5)] (some 5000)
+  (by decide) (by decide) (by decide) (by decide) (by decide) (by decide)
+example := hset_reply_any_key c0 s0 (b "nokey") [b "f", b "1"] [] [(b "f", .int 1)] none
+  (by decide) (Or.inl (by decide)) (by decide) (by decide) (by decide)
 
 end Sugar.Props.C14
